@@ -16,6 +16,22 @@
      squash li l         l without its entry of level li, the levels above li renumbered down by one
      up_level li j       position in the original tree of level j of the tree without level li
 
+   PRECONDITION of every theorem below, read as a statement about the real TaxonomyTree:
+       NoDup hierarchy   -- the level NAMES of taxonomy_tree['hierarchy'] are pairwise different.
+   The model identifies a level with its POSITION, the real class with its NAME (one dict entry per
+   name, hierarchy.index(name) for the position).  The real validate_taxonomy_tree does NOT demand
+   this: it accepts e.g. {'hierarchy': ['a','b','a'], 'a': {'x': ['p'], 'y': ['q']},
+   'b': {'p': ['x'], 'q': ['y']}} - the dict 'a' serves as top level AND as leaf level - and the
+   object built from it is no tree (parents('a','x') = {} although children('b','p') = ['x']; with
+   'a': {'x': ['p','q'], 'y': ['r']}, 'b': {'p': ['x'], 'q': ['y'], 'r': []} - also accepted - the node
+   ('a','x') reaches, through its children p and q, the leaves x AND y while as_leaves['a']['x'] = ['x'];
+   flatten() raises; drop_level('b') yields hierarchy ['a','a']).  The positional model cannot
+   even express such a dict: read by position it is the honest three-level tree of
+   c10_repeated_level_name_positional below, about which the theorems are true, while the real class
+   does not behave like that tree.  Recorded as finding F29 (known_findings.json, class F29-validator-accepts-repeated-level-name;
+   harness/props/c10.py repeated_level_stream evaluates the property clauses on the real object); the
+   harness states the precondition in ctx.assumptions and generates no repeated name elsewhere.
+
    Unchecked and checked queries.  `ancestors` and `children` are total: where the code raises
    (parents() of a name that is no node: KeyError; children() of such a name: RuntimeError) they
    return [].  The checked versions ancestors_chk / children_chk return the error as a value and
@@ -631,3 +647,16 @@ Example c10_def_witnesses :
   childless_tree = [[(0, [2]); (1, [])]; [(2, [5])]] /\
   empty_level_tree = [[(0, [])]; []].
 Proof. repeat split. Qed.
+
+(* the PRECONDITION NoDup hierarchy (header): the real dict with hierarchy ['a','b','a'] read BY POSITION is
+   this three-level tree - accepted by the model's validator, leaf 0 (= 'x') has the ancestors
+   [(1, 10); (0, 0)] and node 0 of the top level has exactly the leaf 0 below it.  The real TaxonomyTree,
+   keyed by NAME, answers parents('a','x') = {} and lists 'x' as its own leaf only by accident of the
+   shared dict: the theorems of this file are about the positional reading and do not describe the real
+   class on such input (finding F29). *)
+Example c10_repeated_level_name_positional :
+  let a := [(0, [10]); (1, [11])] in let b := [(10, [0]); (11, [1])] in
+  let t := [a; b; a] in
+  validate t = true /\ ancestors t 2 0 = [(1%nat, 10); (0%nat, 0)] /\
+  leaves_of t 0 0 = [0] /\ leaves_of t 0 1 = [1].
+Proof. vm_compute. repeat split; reflexivity. Qed.
